@@ -99,6 +99,7 @@ type interpreter struct {
 	initStores map[*ssa.Global]bool // globals stored during the running init
 	depth      int
 	clock      int64  // fake monotone clock (ns)
+	randCount  int    // rand.String calls on this path
 	panicSite  string // where the innermost frame was when the current panic started
 }
 
